@@ -512,6 +512,10 @@ def run(ctx, focus):
         cases += trained_order_cases(ctx, focus, violations, dist)
         # the order of the whole run when it is spread over sessions, one of them with a guess limit it never reaches
         from props import C15 as _c15l
+        # ... and of the other consumer of the queue, the PRINCE-LING word list, for every size
+        from props import C17 as _c17s
+        violations += _c17s.every_size_case('C01')
+        cases += 1
         v_lim, r_lim = _c15l.limited_resume_history('C01')
         violations += v_lim
         cases += r_lim
@@ -560,6 +564,9 @@ def replay(ctx, payload, focus):
         common.use_impl()
         return _c15l.limited_resume_history(focus)[0]
     w = payload.get('violation', {}).get('witness') or payload.get('witness')
+    if w and w.get('every_size_case'):
+        from props import C17 as _c17s
+        return _c17s.every_size_case(focus)
     if w and w.get('deep_restore'):
         n1_, n2_, cut_, pops_ = w['deep_restore']
         return deep_restore_case(n1_, n2_, tuple(cut_), pops_)
